@@ -4,7 +4,7 @@ use crate::fw::*;
 use crate::gen::*;
 use crate::{ensure};
 use engeom::common::{angle_in_direction, angle_signed_pi, angle_to_2pi, signed_compliment_2pi, AngleDir, AngleInterval, Interval};
-use engeom::geom2::{directed_angle, signed_angle};
+use engeom::geom2::{directed_angle, rot270, rot90, signed_angle};
 use proptest::prelude::*;
 use serde::{Deserialize, Serialize};
 use std::f64::consts::PI;
@@ -189,6 +189,29 @@ fn check_vecs(v1: &P2, w2: &P2) -> Verdict {
     for (name, v, sign) in [("ccw", ccw, 1.0), ("cw", cw, -1.0)] {
         ensure!(v >= 0.0 && v <= TAU, format!("C18/directed_angle/range/{name}"), "directed_angle {name} = {v:e} outside [0, 2pi] for {v1:?},{w2:?}");
         ensure!((rot(&ua, sign * v) - ub).norm() <= 1e-9, format!("C18/directed_angle/rotates_onto/{name}"), "rotating v1 by directed_angle {v:e} {name} does not give v2's direction for {v1:?},{w2:?}");
+    }
+    // quarter and three-quarter turns in a stated direction (rot90 / rot270) agree with the directed angle in that
+    // direction, and the sign helpers of AngleDir are consistent with both
+    for (name, d) in [("ccw", AngleDir::Ccw), ("cw", AngleDir::Cw)] {
+        let q = rot90(d) * a;
+        let t = rot270(d) * a;
+        let dq = directed_angle(&a, &q, d);
+        let dt = directed_angle(&a, &t, d);
+        ensure!((dq - PI / 2.0).abs() <= 1e-9, format!("C18/rot90/directed_angle/{name}"), "rot90({name}) turns {v1:?} by a directed angle of {dq:e} in its own direction, expected pi/2");
+        ensure!((dt - 1.5 * PI).abs() <= 1e-9, format!("C18/rot270/directed_angle/{name}"), "rot270({name}) turns {v1:?} by a directed angle of {dt:e} in its own direction, expected 3pi/2");
+        ensure!((q.norm() - na).abs() <= 1e-12 * na && (t.norm() - na).abs() <= 1e-12 * na, format!("C18/rot90/length/{name}"), "rot90/rot270 changed the length of {v1:?}");
+        ensure!(((rot90(d) * (rot270(d) * a)) - a).norm() <= 1e-12 * na, format!("C18/rot90/rot270_inverse/{name}"), "rot90 after rot270 is not the identity on {v1:?}");
+        let sg = d.to_sign();
+        ensure!(sg == if matches!(d, AngleDir::Ccw) { 1.0 } else { -1.0 }, format!("C18/AngleDir/to_sign/{name}"), "to_sign = {sg}");
+        ensure!(AngleDir::from_sign(sg).to_sign() == sg && d.opposite().to_sign() == -sg && d.opposite().opposite().to_sign() == sg, format!("C18/AngleDir/sign_roundtrip/{name}"), "from_sign/opposite inconsistent with to_sign for {name}");
+        ensure!((rot(&ua, sg * PI / 2.0) - q / na).norm() <= 1e-9, format!("C18/rot90/sign/{name}"), "rot90({name}) is not a rotation by to_sign * pi/2 of {v1:?}");
+        // the signed angle's sign names the shorter direction
+        if s.abs() > 1e-9 && (s.abs() - PI).abs() > 1e-9 {
+            let shorter = AngleDir::from_sign(s);
+            let long = directed_angle(&a, &b, shorter.opposite());
+            let short = directed_angle(&a, &b, shorter);
+            ensure!(short <= long + 1e-9 && (short - s.abs()).abs() <= 1e-9, format!("C18/signed_angle/shorter_direction/{name}"), "signed_angle {s:e} but directed angles {short:e} (same sense) and {long:e} (opposite) for {v1:?},{w2:?}");
+        }
     }
     let sum = ccw + cw;
     ensure!(sum.abs() <= 1e-9 || (sum - TAU).abs() <= 1e-9, "C18/directed_angle/sum", "ccw {ccw:e} + cw {cw:e} = {sum:e} is neither 0 nor 2pi for {v1:?},{w2:?}");
